@@ -27,6 +27,9 @@ def run(ctx):
     chk, fb = ctx.check, ctx.fb
     chk.rule("R18.1", "comparison rules: val = key(a,b), der = key(a,b); if/else rules: val = key(a,b), der = key(da,db)")
     chk.rule("R18.2", "one generic derivative table (no other constructor of PartialDerivative)")
+    chk.rule("R18.4", "conditions and branches reach their rules as (operand, recursive derivative of that operand): a comparison in parentheses is kept as a value by its own rule, never short-cut to zero")
+    from rules import c05 as _c05
+    _c05.operand_pairs(chk, fb, "R18.4")
     chk.rule("R18.3", "numeric constants enter via T::from(<f32 literal>) / one / zero; Val::from(f32) is Float, Val::from(u8) is Int")
     body, tab, meta = c05.extract_all(chk, fb, "R18.1")
     n = 0
